@@ -89,7 +89,7 @@ def native_check(c, n_cases, seed, size=4):
             out['cases'] += 1
             key = native.safe_repr(args, 600)
             status, failures = native.run_case(c, fn, args, params, spec.get('env'))
-            if status == 'rejected':
+            if status in ('rejected', 'known-finding-class'):
                 continue
             out['accepted'] += 1
             if key not in seen:
@@ -187,10 +187,34 @@ def main(argv=None):
             bounded = [dict(function=f'bounded.{pid.lower()}', error=f"{type(e).__name__}: {e}\n"
                             f"{traceback.format_exc()[-1500:]}", failures=[], cases=0, accepted=0, distinct=0)]
     findings = load_findings()
+    # contract-level known findings: replay the stored witness on the real function
+    kf_lines = []
+    open_ids = {fd['id'] for fd in findings if fd.get('status', 'open') == 'open'}
+    unlisted = []
+    for c in cs:
+        for kf in c.known_findings:
+            if kf['id'] not in open_ids:
+                unlisted.append(f"{c.qualname}: contract excludes finding {kf['id']} which is not listed "
+                                f"as open in known_findings.json")
+                continue
+            w = kf.get('witness')
+            if w is None:
+                continue
+            try:
+                args = w() if callable(w) else dict(w)
+                fn = (c.native or {}).get('call') or native.resolve(c.qualname.split('#')[0])
+                status, fails = native.run_case(c, fn, args, list(c.params), (c.native or {}).get('env'),
+                                                ignore_known=True)
+                if fails:
+                    fd = [f for f in findings if f['id'] == kf['id']][0]
+                    kf_lines.append((kf['id'], fd['what']))
+            except BaseException as e:   # noqa
+                unlisted.append(f"{c.qualname}: witness of known finding {kf['id']} could not be replayed: "
+                                f"{type(e).__name__}: {e}")
     violations = []
     known = []
     undecided = []
-    errors = []
+    errors = list(unlisted)
     n_ob = n_ok = 0
     solver_time = 0.0
     by_backend = {}
@@ -309,6 +333,10 @@ def main(argv=None):
     print(f"{pid} [{tier}] functions={len(results)} obligations={n_ob} discharged={n_ok} "
           f"bounded_cases={evaluations} solver={solver_time:.1f}s wall={time.time() - t0:.1f}s")
     seen_known = set()
+    for kid, what in kf_lines:
+        if kid not in seen_known:
+            seen_known.add(kid)
+            print(f"KNOWN-FINDING: property={pid} {what}")
     for fd, v in known:
         if fd['id'] not in seen_known:
             seen_known.add(fd['id'])
